@@ -392,6 +392,9 @@ def rule_N1(ctx) -> None:
     else:
         ctx.proved("N1", "dump_varint:continuation-bit", loc)
     lc = set(f["load_and_consts"])
+    # the continuation bit may be tested without an `& 0x80` (b < 0x80, b > 0x7F): then the paths decide it
+    if 0x7F in lc and not (lc - {0x7F, 0x80}) and continuation_decided(mod, mod.func("load_varint")):
+        lc = {0x7F, 0x80}
     if not {0x7F, 0x80} <= lc or (lc - {0x7F, 0x80}):
         ctx.refuted("N1", "load_varint:mask/continuation", f"and-constants={sorted(lc)}", loc,
                     f"decoder masks with {sorted(lc)}; payload mask 0x7F and continuation 0x80 expected", "decode_varint(b'\\x80\\x01', 0)")
@@ -512,6 +515,9 @@ def _cont_clear(val: Dict[Sym, bool]) -> Optional[bool]:
         elif t[0] == "op" and t[1] == "<" and len(t) == 4 and t[3] == C(0x80) and t[2][0] != "c":
             clear = v                       # b < 0x80
             res = clear if res is None else (res or clear)
+        elif t[0] == "op" and t[1] == "<" and len(t) == 4 and t[2] == C(0x7F) and t[3][0] != "c":
+            clear = not v                   # 0x7F < b, i.e. b > 0x7F / b >= 0x80: set
+            res = clear if res is None else (res or clear)
     return res
 
 
@@ -520,6 +526,33 @@ def _infinite_loop(e) -> bool:
     if isinstance(d, tuple) and d and d[0] == "call" and dotted(d[1]).split(".")[-1] == "count":
         return True
     return isinstance(d, tuple) and len(d) == 2 and d[0] in ("while", "while!") and d[1] == C(True)
+
+
+def returns_after_terminator(mod, fn):
+    """(number of returning paths, a returning path that has not seen a byte with a clear continuation bit or None, paths)"""
+    paths = Interp(mod, fork_while=True, fork_ifexp=True).run(fn)
+    bad = None
+    n_ret = 0
+    for p in paths:
+        if p.outcome == "raise":
+            continue
+        loops_ = [e for e in p.events if e.kind == "loop"]
+        left_by = any(e.kind in ("break", "return") and e.loops for e in p.events) or any(e.kind == "break" for e in p.events)
+        if loops_ and all(_infinite_loop(e) for e in loops_) and not left_by and p.outcome == "fall":
+            continue          # falling out of an endless loop is not a path of the program
+        n_ret += 1
+        if _cont_clear(p.valuation) is not True:
+            bad = bad or p
+    return n_ret, bad, len(paths)
+
+
+def continuation_decided(mod, fn) -> bool:
+    """some path of fn decides a continuation-bit test (in any of the recognised spellings)"""
+    try:
+        paths = Interp(mod, fork_while=True, fork_ifexp=True).run(fn)
+    except AnalysisError:
+        return False
+    return any(_cont_clear(p.valuation) is not None for p in paths)
 
 
 def rule_N7(ctx, rule: str = "N7") -> None:
@@ -559,6 +592,8 @@ def rule_N7(ctx, rule: str = "N7") -> None:
                         masks.add(fold(side, mod.consts))
                     except _Unfoldable:
                         pass
+        if 0x7F in masks and not (masks - {0x7F, 0x80}) and continuation_decided(mod, dv):
+            masks = {0x7F, 0x80}
         if masks == {0x7F, 0x80}:
             ctx.proved(rule, "decode_varint:mask/continuation", mod.loc(dv))
         else:
@@ -571,20 +606,8 @@ def rule_N7(ctx, rule: str = "N7") -> None:
     for q, fn in (("load_varint", lv), ("decode_varint", dv)):
         if q == "decode_varint" and not own_loop:
             continue
-        paths = Interp(mod, fork_while=True, fork_ifexp=True).run(fn)
-        ctx.count(len(paths))
-        bad = None
-        n_ret = 0
-        for p in paths:
-            if p.outcome == "raise":
-                continue
-            loops_ = [e for e in p.events if e.kind == "loop"]
-            left_by = any(e.kind in ("break", "return") and e.loops for e in p.events) or any(e.kind == "break" for e in p.events)
-            if loops_ and all(_infinite_loop(e) for e in loops_) and not left_by and p.outcome == "fall":
-                continue          # falling out of an endless loop is not a path of the program
-            n_ret += 1
-            if _cont_clear(p.valuation) is not True:
-                bad = bad or p
+        n_ret, bad, n_paths = returns_after_terminator(mod, fn)
+        ctx.count(n_paths)
         name = f"{q}:returns-only-after-terminator"
         if not n_ret:
             ctx.inconclusive(rule, name, "no returning path", mod.loc(fn))
@@ -661,21 +684,62 @@ def rule_N3(ctx) -> None:
     mod = ctx.repo.mod(M_INIT)
     lv = mod.func("load_varint")
     loc = mod.loc(lv)
-    from .decode import read_guards
+    # on every path: a read that came back empty ends in EOFError, and a byte is only used (its value enters the result)
+    # on paths that found it non-empty - however the emptiness test is spelled (if not b / while byte / len(b) < 1)
+    paths = Interp(mod, fork_while=True, fork_ifexp=True).run(lv)
+    ctx.count(len(paths))
 
-    res = read_guards(mod, lv)
-    if not res:
-        raise AnalysisError("load_varint: no stream read found")
-    for r in res:
-        if r["guarded"]:
-            if r["exc"] and "EOFError" not in r["exc"]:
-                ctx.refuted("N3", "load_varint:eof", f"raises={sorted(r['exc'])}", loc,
-                            f"premature end of input raises {sorted(r['exc'])}, callers rely on EOFError", "decode_varint(b'\\x80', 0)")
+    def is_read(t: Sym) -> bool:
+        return t[0] == "call" and dotted(t[1]).split(".")[-1] in ("read", "read1", "_read_exact")
+
+    n_reads = 0
+    problem = None
+    excs = set()
+    for p in paths:
+        reads = [e for e in p.events if e.kind == "call" and is_read(e.data)]
+        if not reads:
+            continue
+        n_reads += 1
+        # emptiness decisions: truthiness atoms of the read result (possibly `first or read`) or len() comparisons of it
+        empties = []
+        # `first or stream.read(1)`: decided operand by operand
+        or_terms = {t for k in p.valuation for t in walk(k) if t[0] == "op" and t[1] == "or" and any(is_read(x) for x in t[2:])}
+        for t in or_terms:
+            vals = [p.valuation.get(x) for x in t[2:]]
+            if any(v is True for v in vals):
+                empties.append(False)
+            elif all(v is False for v in vals):
+                empties.append(True)
+        for k, v in p.valuation.items():
+            base = k
+            if base[0] == "op" and base[1] == "or" and any(is_read(x) for x in base[2:]):
+                empties.append(not v)
+            elif is_read(base) and not or_terms:
+                empties.append(not v)
+            elif base[0] == "op" and base[1] in ("<", "==") and any(x[0] == "call" and x[1] == N("len") and x[2] and (is_read(x[2][0]) or any(is_read(y) for y in walk(x[2][0]))) for x in base[2:]):
+                # len(b) < 1 / len(b) == 0 true means empty; 0 < len(b) true means non-empty
+                lhs_len = base[2][0] == "call"
+                empties.append(v if lhs_len else not v)
+        uses = any(k[0] == "op" and k[1] in ("&", "<") and any(t[0] in ("sub", "call") and any(is_read(y) for y in walk(t)) for t in walk(k)) and not any(k is e_ for e_ in ()) 
+                   for k in p.valuation if not is_read(k) and not (k[0] == "op" and k[1] == "or"))
+        if any(empties):
+            if p.outcome != "raise":
+                problem = problem or ("empty-read-not-raised", f"a path on which the read came back empty ends in {p.outcome}")
             else:
-                ctx.proved("N3", "load_varint:eof", loc, "empty read raises EOFError before any use")
-        else:
-            ctx.refuted("N3", "load_varint:eof", "unguarded-use:" + r["why"], loc,
-                        f"the byte read at line {r['line']} is used without an emptiness test: {r['why']}", "decode_varint(b'\\x80', 0)")
+                excs.add(dotted(p.value[1]) if p.value is not None and p.value[0] == "call" else (show(p.value) if p.value is not None else ""))
+        elif not empties and (uses or p.outcome == "return"):
+            problem = problem or ("unguarded-use", "the byte that was read is used on a path that never tested it for emptiness")
+    if not n_reads:
+        raise AnalysisError("load_varint: no stream read found")
+    if problem:
+        ctx.refuted("N3", "load_varint:eof", problem[0], loc, f"load_varint: {problem[1]}", "decode_varint(b'\\x80', 0)")
+    elif excs and not all("EOFError" in e for e in excs):
+        ctx.refuted("N3", "load_varint:eof", f"raises={sorted(excs)}", loc,
+                    f"premature end of input raises {sorted(excs)}, callers rely on EOFError", "decode_varint(b'\\x80', 0)")
+    elif not excs:
+        ctx.refuted("N3", "load_varint:eof", "no-eof-path", loc, "no path of load_varint raises when the stream ends", "decode_varint(b'\\x80', 0)")
+    else:
+        ctx.proved("N3", "load_varint:eof", loc, "an empty read raises EOFError before any use")
     # decode_varint: returns (value, pos + len(raw))
     dv = mod.func("decode_varint")
     if any(isinstance(n, (ast.For, ast.While)) for n in ast.walk(dv)) and not any(isinstance(c, ast.Call) and ast.unparse(c.func) == "load_varint" for c in ast.walk(dv)):
